@@ -84,6 +84,8 @@ pub fn run(tier: Tier) -> i32 {
         }
         // rendering 1: single spaces everywhere
         one_text(&ctx, acc, &lang, &syms.join(" "));
+        // rendering 1b: no-break spaces instead of spaces
+        one_text(&ctx, acc, &lang, &syms.join("\u{a0}"));
         // rendering 2: punctuation glued to the previous word, no space before it
         let mut glued = String::new();
         for (i, s) in syms.iter().enumerate() {
@@ -114,7 +116,7 @@ pub fn run(tier: Tier) -> i32 {
     acc.sample(json!({"text": "twenty o five, o xyzzy", "model": "twenty zero five, qwfp xyzzy"}));
     let cov = json!({
         "exhaustive": true,
-        "rule": "every English token sequence of length <= k over the alphabet that contains an 'o', in three renderings (spaces everywhere, punctuation glued to the previous word, no spaces around punctuation), at every threshold; compared with the same text where each 'o' is replaced by 'zero' or by an ordinary word according to the statement's neighbour rule; non-trivial = texts with at least one 'o' token",
+        "rule": "every English token sequence of length <= k over the alphabet that contains an 'o', in four renderings (spaces everywhere, no-break spaces everywhere, punctuation glued to the previous word, no spaces around punctuation), at every threshold; compared with the same text where each 'o' is replaced by 'zero' or by an ordinary word according to the statement's neighbour rule; non-trivial = texts with at least one 'o' token",
         "bounds": {"alphabet": alphabet, "depth": k},
         "thresholds": T.iter().map(|t| thr_name(*t)).collect::<Vec<_>>(),
     });
